@@ -146,8 +146,9 @@ struct PqCase {
       } break;
       }
       check(q, r, nm);
-      // non-trivial: >= 3 elements (a heap with both children) were held
-      if (r.size() >= 3)
+      // non-trivial: >= 3 elements (a heap with both children) were held;
+      // for the remove-on-empty variant: the queue held something before
+      if (r.size() >= (GuardRemove ? 3u : 1u))
         sx::mark_nontrivial();
     }
     std::string key = vstr(order(q, "end", r.size() + 2));
